@@ -20,7 +20,124 @@ def _key(q):
     return q.key()
 
 
+# ---------------------------------------------------------------------------
+# log / fractional powers of POSITIVE quantities as an algebra (enabled per check: ctx().log_algebra = True):
+#   x^r   for a monomial x = k * v1^e1 * ... (every v_i assumed positive by the check):  k^r * pw(v1,r)^e1 * ...
+#   log x for x = k * monomial * primitive polynomial / atoms:  log k + sum e_i L(v_i) + L(prim) - ...,
+#         with L(pw(v, r)) = r L(v)
+# pw(v, r) and L(.) are uninterpreted (fresh reals); the rewrite rules are exactly log(xy) = log x + log y and
+# log(x^r) = r log x. Float exponents such as 1./3 are read as the rational they stand for (limit_denominator).
+def _varname(idx):
+    from . import poly as P
+    return P.var_names()[idx]
+
+
+def _pw_var(vname, rr):
+    c = ctx()
+    tab = c.__dict__.setdefault('pw_vars', {})
+    k = (vname, rr)
+    v = tab.get(k)
+    if v is None:
+        nm = "pw_%s_%d_%d" % (vname, rr.numerator, rr.denominator)
+        v = Sym(Q.var(nm, kind='uf', fn='pow'))
+        tab[k] = v
+        c.__dict__.setdefault('pw_of', {})[nm] = k
+        c.axioms.append(SymBool.cmp('<', -v.re))
+    return v
+
+
+def pow_frac(x, r):
+    if not x.im.is_zero():
+        raise SymError("fractional power of a complex symbolic value")
+    q = x.re
+    if len(q.n.t) != 1 or q.d:
+        raise SymError("fractional power of a symbolic value that is not a monomial")
+    (mono, coef), = q.n.t.items()
+    k = Fraction(q.s) * Fraction(coef)
+    if k <= 0:
+        raise SymError("fractional power of a non-positive monomial")
+    rr = Fraction(r).limit_denominator(4096)
+    res = _lift(float(k) ** float(rr)) if k != 1 else _lift(1)
+    for nv, e in mono:
+        res = res * _pw_var(_varname(-nv), rr) ** e
+    return res
+
+
+def _log_atom(vname):
+    """L(v) for a variable; L(pw(v0, r)) = r L(v0)"""
+    c = ctx()
+    pw = c.__dict__.get('pw_of', {}).get(vname)
+    if pw is not None:
+        return _log_atom(pw[0]) * _lift(pw[1])
+    tab = c.__dict__.setdefault('log_vars', {})
+    v = tab.get(vname)
+    if v is None:
+        v = Sym(Q.var("log_%s" % vname, kind='uf', fn='log'))
+        tab[vname] = v
+        from . import poly as P
+        x = Sym(Q.make(P.get_var(vname)))
+        # sign of the logarithm follows the position of its argument w.r.t. 1
+        c.axioms.append(SymBool.any([SymBool.all([x > 1, v > 0]), SymBool.all([x == 1, v == 0]), SymBool.all([x < 1, v < 0])]))
+    return v
+
+
+def _log_poly(p):
+    """log of a polynomial with positive value: monomial content split off, the primitive rest uninterpreted"""
+    from . import poly as P
+    prim, cont = P.content_split(p)
+    if cont < 0:
+        raise SymError("logarithm of a quantity with negative content")
+    monos = list(prim.t)
+    common = {}
+    first = True
+    for m in monos:
+        d = dict(m)
+        if first:
+            common = d
+            first = False
+        else:
+            common = {v: min(e, d[v]) for v, e in common.items() if v in d}
+    res = _lift(float(np.log(float(cont)))) if cont != 1 else _lift(0)
+    if common:
+        rest = {}
+        for m, cf in prim.t.items():
+            d = dict(m)
+            nm = tuple((v, d[v] - common.get(v, 0)) for v, _ in m if d[v] - common.get(v, 0) > 0)
+            rest[nm] = cf
+        prim = P.Poly(rest)
+        for nv, e in common.items():
+            res = res + _log_atom(_varname(-nv)) * e
+    if not prim.is_const():
+        c = ctx()
+        k = ('log', ('poly', prim.key() if hasattr(prim, 'key') else tuple(sorted(prim.t.items()))))
+        hit = c.uf_apps.get(k)
+        if hit is None:
+            v = Sym(Q.var(c.fresh_name('log'), kind='uf', fn='log'))
+            c.uf_apps[k] = (v, Sym(Q.make(prim)))
+            hit = c.uf_apps[k]
+        res = res + hit[0]
+    elif prim.const_value() != 1:
+        res = res + _lift(float(np.log(float(prim.const_value()))))
+    return res
+
+
+def log_canon(x):
+    if not x.im.is_zero():
+        raise SymError("log of a complex symbolic value")
+    q = x.re
+    if q.s <= 0:
+        raise SymError("logarithm of a quantity with a negative scalar factor")
+    res = _log_poly(q.n)
+    if q.s != 1:
+        res = res + _lift(float(np.log(float(q.s))))
+    for atom, e in q.d.items():
+        res = res - _log_poly(atom) * e
+    return res
+
+
 def apply(name, x):
+    if name == 'log' and not x.is_const() and getattr(ctx(), 'log_algebra', False):
+        return log_canon(x)
     if x.is_const():
         v = x.const_value()
         if isinstance(v, complex):
